@@ -194,6 +194,9 @@ func init() {
 		t := fmt.Sprintf("(ite (> %s 9223372036854775807) 9223372036854775807 (ite (< %s (- 9223372036854775808)) (- 9223372036854775808) %s))", d, d, d)
 		return []Val{{T: t, S: SInt, GoT: fc.resT(e)}}
 	}
+	I["(time.Time).Nanosecond"] = func(fc *FCtx, st *State, e *ast.CallExpr, r *Val, a []Val) []Val {
+		return []Val{{T: fmt.Sprintf("(mod %s 1000000000)", r.T), S: SInt, GoT: types.Typ[types.Int]}}
+	}
 	I["(time.Time).UTC"] = func(fc *FCtx, st *State, e *ast.CallExpr, r *Val, a []Val) []Val { return one(*r) }
 	I["time.Unix"] = func(fc *FCtx, st *State, e *ast.CallExpr, r *Val, a []Val) []Val {
 		return []Val{{T: fmt.Sprintf("(+ (* %s 1000000000) %s)", a[0].T, a[1].T), S: SInt, GoT: fc.resT(e)}}
